@@ -1,6 +1,7 @@
 # C12: API calls are pure: no input mutation, repeatable, no shared mutable state.
 import copy
 import json
+import sys
 import types
 
 import encdata as E
@@ -56,6 +57,13 @@ def work(ctx):
             pool.append(("inline%d" % i, compile(src, "<c12-%d>" % i, "exec")))
         except SyntaxError:
             pass
+    # tables holding the same key at two indices (the decoder's duplicate bookkeeping is where state could hide):
+    # what the 3.7-3.9 peephole optimizer leaves behind, and a hand-padded table for every version
+    for i, src in enumerate(["w = (None,)\ndef f(a=None):\n    return a\n", "x = (1, 2)\ny = (1, 2)\nz = [(1, 2), 1, 2]\n"]):
+        k = compile(src, "<c12-dup-%d>" % i, "exec")
+        pool.append(("dup%d" % i, k))
+        if sys.version_info >= (3, 8):
+            pool.append(("dup%d-padded" % i, k.replace(co_consts=k.co_consts + k.co_consts[:2], co_names=k.co_names + k.co_names[:1])))
     for origin, k in corpus.code_objects(ctx.tier, rng, limit=6, max_code=600):
         if rng.random() < 0.05:
             pool.append((origin, k))
@@ -65,6 +73,7 @@ def work(ctx):
         except (SyntaxError, ValueError, RecursionError, OverflowError):
             pass
 
+    firsts = []
     for origin, code in pool:
         what = "%s:%s" % (origin, code.co_name)
         data = {"origin": origin, "name": code.co_name}
@@ -85,7 +94,7 @@ def work(ctx):
         first["from_json"] = CodeData.from_json_data(copy.deepcopy(doc))
         returned_docs = []
         hist = [rng.choice(["from_code", "to_code", "normalize", "to_json", "from_json", "poison_returned"]) for _ in range(rng.randint(4, 10 if ctx.quick else 30))]
-        hist += ["from_json", "from_json", "to_json", "poison_returned", "to_json"]
+        hist += ["from_code", "from_json", "from_json", "to_json", "poison_returned", "to_json", "from_code"]
         for step, op in enumerate(hist):
             ctx.evaluated((what, step, op))
             ctx.count("op:" + op)
@@ -142,4 +151,13 @@ def work(ctx):
                 ncases += 1
             except E.Unsupported:
                 pass
+        firsts.append((what, data, code, first["from_code"]))
         ctx.sample({"code": what, "history": hist})
+    # state shared ACROSS objects: after everything above, decoding each code object again must still give the
+    # result of its very first decoding
+    for what, data, code, d_first in firsts:
+        ctx.evaluated((what, "re-decode-at-end"))
+        r = call(CodeData.from_code, code)
+        if r[0] != "ok" or r[1] != d_first or hash(r[1]) != hash(d_first):
+            ctx.violation("not-repeatable", "%s: from_code at the end of the run (after %d other objects were decoded) %s" % (
+                what, len(firsts), "raises " + r[1] if r[0] != "ok" else "returns a different result than the first call"), dict(data, history=["...", "from_code"]))
